@@ -905,14 +905,28 @@ class Gen(object):
     def _alive(self, reg=None):
         return [s for s in self.sess if s.alive and not s.is_link and (reg is None or s.reg == reg)]
 
+    def _scramble(self, name):
+        """another spelling of the same name under the IRC case mapping (letters; []\\ vs {}|)"""
+        r = self.rng
+        tr = {0x5b: 0x7b, 0x5d: 0x7d, 0x5c: 0x7c, 0x7b: 0x5b, 0x7d: 0x5d, 0x7c: 0x5c}
+        out = bytearray()
+        for ch in name:
+            if r.random() < 0.5:
+                if 0x41 <= ch <= 0x5a or 0x61 <= ch <= 0x7a:
+                    ch ^= 0x20
+                elif ch in tr:
+                    ch = tr[ch]
+            out.append(ch)
+        return bytes(out)
+
     def _anynick(self):
         r = self.rng
         k = r.random()
         live = [s.nick for s in self.sess if s.nick]
         if k < 0.6 and live:
             n = r.choice(live)
-            if r.random() < 0.2:
-                n = r.choice([n.upper(), n.lower(), n.swapcase()])
+            if r.random() < 0.3:
+                n = r.choice([n.upper(), n.lower(), n.swapcase(), self._scramble(n), self._scramble(n)])
             return n
         if k < 0.75 and self.pseudo:
             return r.choice(self.pseudo)
@@ -924,11 +938,12 @@ class Gen(object):
         r = self.rng
         k = r.random()
         if s is not None and s.chans and k < 0.5:
-            return r.choice(sorted(s.chans))
+            c = r.choice(sorted(s.chans))
+            return self._scramble(c) if r.random() < 0.3 else c
         if k < 0.9:
             c = r.choice(self.chans)
-            if r.random() < 0.1:
-                c = r.choice([c.upper(), c.lower()])
+            if r.random() < 0.25:
+                c = r.choice([c.upper(), c.lower(), self._scramble(c), self._scramble(c)])
             return c
         return r.choice(BAD_CHANS + CHAN_POOL)
 
@@ -1028,6 +1043,23 @@ class Gen(object):
                 tgt = s.nick if r.random() < 0.7 and s.nick else self._anynick()
                 return b"MODE %s %s" % (tgt, r.choice([b"+i", b"-i", b"+G", b"-G", b"+iG", b"+o", b"+r", b"i"]))
             c = self._anychan(s)
+            if r.random() < 0.15:
+                # compound mode strings: several changes in one command, a parameterless list query first / in the middle
+                n = r.randint(2, 5)
+                ms, params, sign = b"", [], b""
+                for _ in range(n):
+                    sg = r.choice([b"+", b"-", b""])
+                    if sg and sg != sign:
+                        ms += sg; sign = sg
+                    ch = r.choice(b"itnsxkobbz")
+                    ms += bytes([ch])
+                    if ch in b"ko" and r.random() < 0.8:
+                        params.append(self._anynick() if ch == ord("o") else b"sesame")
+                    elif ch == ord("b") and r.random() < 0.4:
+                        params.append(r.choice(BAN_MASKS))
+                if r.random() < 0.5:
+                    ms = r.choice([b"+b", b"b", b"+b-"]) + ms.lstrip(b"+") if not ms.startswith(b"-") else b"+b" + ms
+                return b"MODE %s %s" % (c, b" ".join([ms] + params))
             k = r.random()
             if k < 0.25:
                 m = r.choice([b"+t", b"-t", b"+s", b"-s", b"+i", b"-i", b"+n", b"-n", b"+x", b"-x", b"+tn", b"-t+s", b"+z", b"+1"])
@@ -1363,7 +1395,8 @@ class Gen(object):
             x.chans.add(lc)
         elif name == "privs":
             M(m, r.choice([b"MODE %s +o %s" % (c, m.nick or b"m"), b"KICK %s %s :out" % (c, o.nick or b"o"), b"MODE %s +b *!*@*" % c,
-                           b"MODE %s -t" % c, b"MODE %s +k stolen" % c]))
+                           b"MODE %s -t" % c, b"MODE %s +k stolen" % c, b"MODE %s +b-i" % c, b"MODE %s +b-t+s" % c, b"MODE %s b+o %s" % (c, m.nick or b"m"),
+                           b"MODE %s +bk stolen" % c]))
             M(x, r.choice([b"MODE %s +o %s" % (c, x.nick or b"x"), b"KICK %s %s" % (c, m.nick or b"m"), b"MODE %s +i" % c,
                            b"INVITE %s %s" % (x.nick or b"x", c)]))
             M(o, b"MODE %s +o %s" % (c, m.nick or b"m"))
